@@ -104,6 +104,18 @@ def corpus_variants(prop):
         caught = meta.get("caught_by", {})
         if isinstance(caught.get(f"{prop}/quick"), dict) and caught[f"{prop}/quick"].get("exit") == 1:
             out.append(dict(id=f"corpus:{sid}", kind="seeded", expect=prop + ".", patch=pp))
+    # behaviour-preserving refactorings written by independent agents (seeded/refactors): replayed as twins for the
+    # property they were written against and for every property that ever raised an alarm on them
+    rbase = os.path.join(base, "refactors")
+    for sid in sorted(os.listdir(rbase)) if os.path.isdir(rbase) else []:
+        mp = os.path.join(rbase, sid, "meta.json")
+        pp = os.path.join(rbase, sid, "patch.diff")
+        if not (os.path.isfile(mp) and os.path.isfile(pp)):
+            continue
+        with open(mp) as fh:
+            meta = json.load(fh)
+        if meta.get("property") == prop or prop in meta.get("first_alarms", {}):
+            out.append(dict(id=f"refactor:{sid}", kind="twin", patch=pp))
     return out
 
 
